@@ -335,3 +335,28 @@ fn e_id<A: Archetype>() -> u8 {
 
 harness! { fn c17big_world_iter_created() unwind(7) { big_world_iterators(false) } }
 harness! { fn c17big_world_iter_destroyed() unwind(7) { big_world_iterators(true) } }
+
+/// The cheapest program that reaches the cursor's boundary: no event at all, so a single `next()`
+/// walks the cursor through all 256 archetypes. Fully concrete (the solver has nothing to choose;
+/// what is decided is that no check on the way — arithmetic overflow included — can fail).
+pub fn big_world_empty_iterators() {
+    let world = WBig::new();
+    {
+        let mut it = world.iter_created();
+        let (lo, hi) = it.size_hint();
+        assert!(lo == 0 && hi == Some(0), "size_hint of an empty world-level event iterator");
+        assert!(it.next().is_none(), "an empty 256-archetype world yields a created event");
+        assert!(it.next().is_none(), "an exhausted world-level event iterator yields an event when asked again");
+        let (lo, hi) = it.size_hint();
+        assert!(lo == 0 && hi == Some(0), "size_hint of an exhausted world-level event iterator");
+    }
+    {
+        let mut it = world.iter_destroyed();
+        assert!(it.next().is_none() && it.next().is_none(), "an empty 256-archetype world yields a destroyed event");
+    }
+    assert!(world.iter_created().count() == 0 && world.iter_destroyed().last().is_none());
+    cover!(true, "both iterators of the 256-archetype world drained");
+    std::mem::forget(world);
+}
+
+harness! { fn c17big_world_iter_empty() unwind(3) { big_world_empty_iterators() } }
